@@ -168,7 +168,10 @@ def is_zero(c, e):
     return e == ('const', 0)
 
 
-def check_acc(rep, rule, c, what, a, term_text, env, L, term_cond=None, outer=()):
+MANDATORY_MEMBERS = {"adr", "dat_w", "dat_r", "sel", "cyc", "stb", "we", "ack", "addr", "r_data", "r_stb", "w_data", "w_stb"}
+
+
+def check_acc(rep, rule, c, what, a, term_text, env, L, term_cond=None, outer=(), ignore_prefix=()):
     """accumulator a == OR over all iterations of loop L of <term> (term only present under term_cond), starting from 0"""
     site = c.fi.site
     init0 = c.norm(a.init)
@@ -200,6 +203,11 @@ def check_acc(rep, rule, c, what, a, term_text, env, L, term_cond=None, outer=()
         rep.bad(rule, site, what, f"term is {c.show(term)}; expected {ir.show(want_term)}{extra}", line=ln)
         return False
     tg = [(fr[0], c.norm(fr[1]), fr[2]) if fr[0] == 'pyif' else fr for fr in tgen]
+    # conditions that hold for the whole statement (the driver's own generation conditions) and hasattr() of a member every
+    # interface of that protocol has say nothing about the term
+    ip = [fr for fr in ignore_prefix if fr[0] == 'pyif']
+    tg = [fr for fr in tg if not (fr[0] == 'pyif' and fr in ip)]
+    tg = [fr for fr in tg if not (fr[0] == 'pyif' and fr[2] and fr[1][0] == 'has' and fr[1][2] in MANDATORY_MEMBERS)]
     want_tg = [('for', o) for o in outer] + [('for', L.id)] + ([] if term_cond is None else [('pyif', c.parse(term_cond, env), True)])
     if tg != want_tg:
         rep.bad(rule, site, what, "the term is not added for every subordinate (that has the signal): "
@@ -213,6 +221,9 @@ def check_fanin(rep, rule, c, what, target, term_text, env, L, bus_cond=None, te
     under bus_cond only."""
     site = c.fi.site
     ds = c.drivers_of(c.parse(target, env))
+    if not ds and c.overlapping(c.parse(target, env)):
+        rep.unk(rule, site, what, f"{target} is " + "driven bit by bit / slice by slice; the rule compares the signal as a whole and does not assemble it")
+        return False
     if not ds:
         rep.bad(rule, site, what, f"{target} is never driven: responses / read data would be lost")
         return False
@@ -236,7 +247,7 @@ def check_fanin(rep, rule, c, what, target, term_text, env, L, bus_cond=None, te
         else:
             rep.bad(rule, site, what, f"value {c.show(d.value)} is not a plain OR-reduction over the subordinates", line=d.lineno)
         return False
-    if not check_acc(rep, rule, c, what, a, term_text, env, L, term_cond=term_cond, outer=outer):
+    if not check_acc(rep, rule, c, what, a, term_text, env, L, term_cond=term_cond, outer=outer, ignore_prefix=want_gen):
         return False
     rep.ok(rule, site, what, f"{target} = OR over subordinates of {term_text}")
     return True
@@ -774,9 +785,9 @@ def param_refusals(rep, rule, idx, only=None):
             if isinstance(v, tuple) and v != ('name', p_) and v[0] == 'phi':
                 env[p_] = v
         try:
-            ok, detail = refuses(c, cond, exc, env)
+            from .common import check_refusal
+            check_refusal(rep, rule, c, f"{what} (else {exc})", cond, exc, env)
         except Exception as e:                              # pragma: no cover
             rep.unk(rule, c.fi.site, f"{what} (else {exc})", f"cannot decide: {e}")
             continue
-        rep.check(ok, rule, c.fi.site, f"{what} (else {exc})", detail, nontrivial=True)
     return n
